@@ -30,6 +30,57 @@ def shapes(chk):
     return out
 
 
+def binary_category_runs(chk):
+    """the compiled binary (main -> analyze_dir -> generate_report) for all 8 combinations of categories with findings: the report holds the part of
+    a category iff that category has findings -- also when it is the only one"""
+    import os
+    import re
+    import subprocess
+    snip = {'vul': ('divide_before_multiply', 'function d(uint256 a) public { a / 2 * 3; }'), 'opt': ('sstore', 'uint256 st; function w() public { st = 1; }'),
+            'qa': ('private_vars_leading_underscore', 'uint256 private pv;')}
+    key = {'vul': 'vulnerabilities', 'opt': 'optimizations', 'qa': 'qa'}
+    order = ['vul', 'opt', 'qa']
+    text = 'pragma solidity 0.8.16;\ncontract Sel {\n' + ''.join('    %s\n' % snip[c][1] for c in order) + '}\n'
+    line_of = {c: 3 + i for i, c in enumerate(order)}
+    heads = {}
+    for c in order:
+        _, overview = c11.native_texts(chk, c)
+        first = [ln for ln in overview[0].split('\n') if ln.strip()]
+        heads[c] = first[0] if first else None
+    binary = os.path.join(chk.world.build, 'solstat')
+    for combo in itertools.product((0, 1), repeat=3):
+        chosen = {c: bool(x) for c, x in zip(order, combo)}
+        d = os.path.join(chk.native.dir, 'cats%d' % chk.native.n)
+        chk.native.n += 1
+        os.makedirs(os.path.join(d, 'proj'))
+        open(os.path.join(d, 'proj', 'Sel.sol'), 'w').write(text)
+        cfg = 'path = "proj"\n' + ''.join('%s = [%s]\n' % (key[c], '"%s"' % snip[c][0] if chosen[c] else '') for c in ('opt', 'vul', 'qa'))
+        open(os.path.join(d, 'cfg.toml'), 'w').write(cfg)
+        p = subprocess.run([binary, '--toml', 'cfg.toml'], cwd=d, stdout=subprocess.PIPE, stderr=subprocess.PIPE, text=True)
+        chk.validated += 1
+        rp = os.path.join(d, 'solstat_report.md')
+        rep = open(rp).read() if os.path.exists(rp) else None
+        bad = []
+        if p.returncode != 0:
+            bad.append('exit status %d' % p.returncode)
+        if rep is None and any(chosen.values()):
+            bad.append('no report written although %s have findings' % [c for c in order if chosen[c]])
+        listed = {int(m.group(1)) for m in re.finditer(r'^- Sel\.sol:(\d+)$', rep or '', re.M)}
+        for c in order:
+            if chosen[c] and rep is not None and line_of[c] not in listed:
+                bad.append('the %s finding on line %d is not listed' % (c, line_of[c]))
+            if not chosen[c] and line_of[c] in listed:
+                bad.append('a %s finding is listed although the category has none' % c)
+            if heads[c] and rep is not None and (heads[c] in rep) != chosen[c]:
+                bad.append('the %s part is %s although the category has %s' % (c, 'present' if heads[c] in rep else 'absent', 'findings' if chosen[c] else 'no findings'))
+        if bad:
+            chk.violation('binary:category-parts', 'solstat with findings in %s only: %s' % ([c for c in order if chosen[c]] or 'no category', '; '.join(bad)),
+                          {'job': 'solstat', 'config': cfg, 'source': text, 'observed': (rep or '')[:300]})
+        else:
+            chk.ok()
+    chk.sample({'binary runs': '8 combinations of categories with findings through the compiled binary'})
+
+
 def body(chk):
     chk.bounds = {'vulnerability maps': 'all 16 subsets of the 4 patterns x file/line multiplicities up to 3 files / 3 lines',
                   'optimisation maps': 'seeded subsets of up to 5 patterns + one map with 12 patterns x 2 lines',
@@ -43,6 +94,7 @@ def body(chk):
             items.append((cat, lst[k:k + 8]))
     chk.parallel(lambda c, it: c11.check_shapes(c, it, 'C12'), items)
     c11.full_report(chk)
+    binary_category_runs(chk)
 
 
 if __name__ == '__main__':
